@@ -36,6 +36,18 @@ def directed_templates():
                 out.append({"path": "p", "nodes": [("elem", "view", [(fam, name, v)], [])], "subs": {}, "modules": [], "slot_values": False, "src_modules": []})
         out.append({"path": "p", "nodes": [("elem", "view", [], [("text", ("expr", e))]), ("text", ("mixed", [("s", "t"), ("e", e)]))], "subs": {}, "modules": [],
                     "slot_values": False, "src_modules": []})
+    # components whose property changes are queued and applied when the updaters move on to another node: every order of a component and its neighbours
+    A = ("expr", d("a"))
+    pieces = [("elem", "cmp-x", [("plain", "foo-bar", A)], []), ("elem", "view", [("plain", "title", A)], []), ("elem", "cmp-y", [("style", "style", A)], []),
+              ("elem", "cmp-y", [("plain", "title", A), ("class", "class", A)], []), ("elem", "text", [], [("text", A)]),
+              ("elem", "cmp-x", [("plain", "hover-class", A), ("plain", "value", ("mixed", [("s", "v"), ("e", d("a"))]))], [("elem", "cmp-x", [("plain", "x-1", A)], [])])]
+    for i, p1 in enumerate(pieces):
+        for j, p2 in enumerate(pieces):
+            if i != j:
+                out.append({"path": "p", "nodes": [p1, p2], "subs": {}, "modules": [], "slot_values": False, "src_modules": []})
+            for k, p3 in enumerate(pieces):
+                if i < j and k not in (i, j):
+                    out.append({"path": "p", "nodes": [p1, p3, p2], "subs": {}, "modules": [], "slot_values": False, "src_modules": []})
     return out
 
 
@@ -68,7 +80,7 @@ def run(chk):
     n = 400 if quick else 8000
     ts, srcs = [], []
     for i in range(n):
-        g = tg.TmplGen(rng.fork(("t", i)), max_depth=2 if i % 2 else 3)
+        g = tg.TmplGen(rng.fork(("t", i)), max_depth=2 if i % 2 else 3, dyn=True)
         t = g.template()
         ts.append(t)
         srcs.append(tg.Printer().template(t))
@@ -92,6 +104,7 @@ def run(chk):
         meta.append((i, D0))
     outs = core.run_node(reqs)
     reqs2, meta2 = [], []
+    reqs3, meta3 = [], []
     for (i, D0), o in zip(meta, outs):
         if "snapshots" not in o or not o["snapshots"]:
             continue
@@ -120,6 +133,16 @@ def run(chk):
                 reqs2.append({"op": "render", "gen_groups": g["gen_groups"], "path": "p", "steps": [{"create": D0}, {"bindmap": f, "D": D1}]})
                 reqs2.append({"op": "render", "gen_groups": g["gen_groups"], "path": "p", "steps": [{"create": D1}]})
                 meta2.append((i, f, D0, D1))
+        # the runtime's own choice (updateMode ''): one changed field goes through the binding map when it is advertised and the map is usable,
+        # else through the tree update; either way the result is a fresh creation's. Fields the map does not advertise are tried too.
+        others = [f for f in sorted(D0) if f not in B and ("{{" in srcs[i]) and f in srcs[i]][:3]
+        for f in list(B) + others:
+            D1 = dict(D0)
+            D1[f] = copy.deepcopy(r.choice(up.LEAF_POOL))
+            reqs3.append({"op": "render", "gen_groups": groups[i]["gen_groups"], "path": "p", "updateMode": "",
+                          "steps": [{"create": D0}, {"changes": [[[f], D1[f]]], "D": D1}]})
+            reqs3.append({"op": "render", "gen_groups": groups[i]["gen_groups"], "path": "p", "steps": [{"create": D1}]})
+            meta3.append((i, f, D0, D1, f in B))
     outs2 = core.run_node(reqs2) if reqs2 else []
     nb = 0
     for k, (i, f, D0, D1) in enumerate(meta2):
@@ -132,6 +155,10 @@ def run(chk):
             if nb <= 3:
                 chk.violation("input", f"binding-map update of {f!r} threw: {a.get('error')}", template=srcs[i], field=f, D0=D0, D1=D1)
             continue
+        if a["snapshots"][1].get("ret") is not True and "<cmp-dyn" in srcs[i]:
+            # content of a dynamic-slot component is created once per slot instance: the runtime switches the map off and falls back (sound)
+            chk.bump("oracle:bindmap-off-dynamic-slots")
+            continue
         if a["snapshots"][1].get("ret") is not True:
             chk.violation("input", f"bindingMapUpdate refused advertised field {f!r}", template=srcs[i], field=f)
             continue
@@ -141,8 +168,29 @@ def run(chk):
             if nb <= 3:
                 chk.violation("input", f"after running exactly the binding-map updaters of {f!r} the tree differs from a fresh creation",
                               template=srcs[i], field=f, D0=D0, D1=D1, updated=x, fresh=y)
-    chk.programs = len(meta2)
+    outs3 = core.run_node(reqs3) if reqs3 else []
+    nb = 0
+    for k, (i, f, D0, D1, adv) in enumerate(meta3):
+        a, b = outs3[2 * k], outs3[2 * k + 1]
+        if "snapshots" not in b or not b["snapshots"]:
+            continue
+        chk.evaluations += 1
+        if "error" in a or len(a.get("snapshots", [])) != 2:
+            nb += 1
+            if nb <= 3:
+                chk.violation("input", f"updateValues for the single field {f!r} threw: {a.get('error')}", template=srcs[i], field=f, D0=D0, D1=D1, mode="")
+            continue
+        via = (a["snapshots"][1].get("ret") or {}).get("via")
+        chk.bump(f"oracle:single-change:{'advertised' if adv else 'other'}:{via}")
+        x, y = up.project_state(a["snapshots"][1]["tree"]), up.project_state(b["snapshots"][0]["tree"])
+        if json.dumps(x) != json.dumps(y):
+            nb += 1
+            if nb <= 3:
+                chk.violation("input", f"after updateValues for the single field {f!r} (via {via}) the tree differs from a fresh creation",
+                              template=srcs[i], field=f, D0=D0, D1=D1, updated=x, fresh=y, mode="")
+    chk.programs = len(meta2) + len(meta3)
     chk.bump("oracle:bindmap-runs", len(meta2))
+    chk.bump("oracle:single-change-runs", len(meta3))
 
 
 def replay(chk, path):
